@@ -59,7 +59,7 @@ class C01(Check):
     LEVEL = 'model_checking'
     ENGINE = 'SCHED'
     RULE = ('programs = 10 experiment shapes (1x1; 2 envs x stateful learners; shared chunk() prefix with shuffle(n=2); explicit triple list with a '
-            'shared learner, SequentialCB/RejectionCB and a logged env; plus a pipeline alphabet of 31 single environment filters/sources built with non-default parameters (P:<name>, default schedules only); PMF- and kwargs-returning learners; custom evaluator + cache() prefix; RejectionCB next to learners writing learning_info; one learner under several evaluators, plain and chunked; an empty environment behind a chunk with a summary-row evaluator) x '
+            'shared learner, SequentialCB/RejectionCB and a logged env; plus a pipeline alphabet of 31 single environment filters/sources built with non-default parameters (P:<name>), of 8 learners and of 11 evaluator configurations (L:/V:<name>), default schedules only; PMF- and kwargs-returning learners; custom evaluator + cache() prefix; RejectionCB next to learners writing learning_info; one learner under several evaluators, plain and chunked; an empty environment behind a chunk with a summary-row evaluator) x '
             'configurations processes{1,2,3} x maxchunksperchild{0,1,2} x maxtasksperchunk{0,1,2} x seeds; for each, every schedule of the '
             'simulated worker processes / loader / callbacks / log thread with <= b deviations from each default policy is executed; '
             'non-trivial = worker processes were spawned (or, for (1,0,0), the run is the reference itself run a second time)')
@@ -95,9 +95,9 @@ class C01(Check):
                         b = 1 if (shape in ('S1', 'S2', 'S5') and seed == 1) or cfg in ((2, 0, 0), (2, 1, 1)) else 0
                         out.append({'shape': shape, 'cfg': list(cfg), 'seed': seed, 'bound': b})
         # the pipeline alphabet: every environment filter / source with non-default parameters, behind worker processes
-        for name in P.PIPES:
+        for name in ['P:' + n for n in P.PIPES] + ['L:' + n for n in P.LEARNERS] + ['V:' + n for n in P.EVALUATORS]:
             for cfg in (((2, 0, 0), (1, 1, 1)) if tier == 'quick' else ((2, 0, 0), (1, 1, 1), (2, 1, 1), (3, 0, 1), (2, 2, 2))):
-                out.append({'shape': 'P:' + name, 'cfg': list(cfg), 'seed': 1, 'bound': 0})
+                out.append({'shape': name, 'cfg': list(cfg), 'seed': 1, 'bound': 0})
         return out
 
     def ref(self, shape, seed):
@@ -120,7 +120,7 @@ class C01(Check):
 
     def feature(self, case):
         p, c, t = case['cfg']
-        if case['shape'].startswith('P:'): return f"pipeline {case['shape'][2:]} behind worker processes"
+        if case['shape'][:2] in ('P:', 'L:', 'V:'): return f"{ {'P': 'pipeline', 'L': 'learner', 'V': 'evaluator'}[case['shape'][0]] } {case['shape'][2:]} behind worker processes"
         return f"{case['shape']} processes{'=1' if p == 1 else '>1'} maxchunksperchild{'=0' if c == 0 else '>0'} maxtasksperchunk{'=0' if t == 0 else '>0'}"
 
     def run_case(self, case, acc, schedule=None):
